@@ -272,6 +272,34 @@ func newPair(modelPath string, cfg Config) (*pair, error) {
 	return p, nil
 }
 
+// close frees the real context (about 27 MB each: llama.cpp reserves graph meta data for 65536 nodes), batch and model.
+func (p *pair) close() {
+	p.lb.Free()
+	llama.ZZFreeContext(p.lc)
+	llama.FreeModel(p.lm)
+	p.lc, p.lm, p.lb = nil, nil, nil
+}
+
+var pools = map[int][]*pair{}
+
+// pairPool returns n pairs for cfg, creating real contexts only when there are not yet enough for cfg.NCtx.
+func pairPool(modelPath string, cfg Config, n int) ([]*pair, error) {
+	l := pools[cfg.NCtx]
+	for len(l) < n {
+		p, err := newPair(modelPath, cfg)
+		if err != nil {
+			return nil, err
+		}
+		l = append(l, p)
+	}
+	pools[cfg.NCtx] = l
+	for _, p := range l {
+		p.cfg = cfg
+		p.nOps, p.nFull, p.nMoved = 0, 0, 0
+	}
+	return l[:n], nil
+}
+
 // observation of the real cache after an operation
 type obs struct {
 	raw     llama.ZZKvRawInfo
@@ -379,6 +407,27 @@ func (p *pair) modelPosMax(seq int) int {
 	return m
 }
 
+// short drops the cells held by the filler sequence alone from a canonical dump (messages only).
+func short(dump string) string {
+	var keep []string
+	n := 0
+	for _, f := range strings.Split(dump, " p") {
+		if strings.HasSuffix(f, fmt.Sprintf("[%d]", fillerSeq)) {
+			n++
+			continue
+		}
+		keep = append(keep, f)
+	}
+	out := strings.Join(keep, " p")
+	if out != "" && !strings.HasPrefix(out, "p") {
+		out = "p" + out
+	}
+	if n > 0 {
+		out += fmt.Sprintf(" (+%d cells of the filler sequence %d)", n, fillerSeq)
+	}
+	return strings.TrimSpace(out)
+}
+
 // diff is one disagreement between the real library and the model after an operation.
 type diff struct {
 	What string // rm-result | decode-full | decode-error | cells | view-cells | seq-pos-max | real-invariant
@@ -387,8 +436,9 @@ type diff struct {
 
 func token(pos int) int { return 4 + pos%4 }
 
-// apply executes op on both sides and compares. o is the observation of the real cache afterwards.
-func (p *pair) apply(op Op) (o obs, diffs []diff) {
+// exec executes op on both sides and compares the results of the calls (not the cells). quiet: part of a prefix
+// that has been compared step by step before; nothing is counted.
+func (p *pair) exec(op Op, quiet bool) (diffs []diff) {
 	p.nOps++
 	switch op.K {
 	case "dec":
@@ -399,14 +449,17 @@ func (p *pair) apply(op Op) (o obs, diffs []diff) {
 			p.lb.Add(token(next+i), nil, next+i, i == op.B-1, op.A)
 			fb.Add(token(next+i), nil, next+i, i == op.B-1, op.A)
 		}
-		before := p.lc.ZZKvRaw(nSeqMax)
+		var before llama.ZZKvRawInfo
+		if !quiet {
+			before = p.lc.ZZKvRaw(nSeqMax)
+		}
 		errR := p.lc.Decode(p.lb)
 		errM := p.fc.Decode(fb)
 		fullR, fullM := errors.Is(errR, llama.ErrKvCacheFull), errors.Is(errM, fake.ErrKvCacheFull)
-		if fullR && fullM {
+		if fullR && fullM && !quiet {
 			p.nFull++
 		}
-		if errR == nil {
+		if errR == nil && !quiet {
 			after := p.lc.ZZKvRaw(nSeqMax)
 			for i, c := range before.Cells {
 				if len(c.Seqs) > 0 && (after.Cells[i].Pos != c.Pos || fmt.Sprint(after.Cells[i].Seqs) != fmt.Sprint(c.Seqs)) {
@@ -436,16 +489,25 @@ func (p *pair) apply(op Op) (o obs, diffs []diff) {
 	default:
 		panic("unknown op " + op.K)
 	}
+	if quiet && p.cfg.UpdateEachStep {
+		p.lc.ZZKvUpdate() // what observe() does first in this configuration: keep the replayed trace identical
+	}
+	return diffs
+}
+
+// apply executes op on both sides and compares results and cells. o is the observation of the real cache afterwards.
+func (p *pair) apply(op Op) (o obs, diffs []diff) {
+	diffs = p.exec(op, false)
 	o = p.observe()
 	md := p.fc.Dump()
 	if o.invalid != "" {
 		diffs = append(diffs, diff{"real-invariant", o.invalid})
 	}
 	if o.dump != md {
-		diffs = append(diffs, diff{"cells", fmt.Sprintf("real cells {%s}, model cells {%s}", o.dump, md)})
+		diffs = append(diffs, diff{"cells", fmt.Sprintf("real cells {%s}, model cells {%s}", short(o.dump), short(md))})
 	}
 	if p.cfg.UpdateEachStep && o.viewDmp != md {
-		diffs = append(diffs, diff{"view-cells", fmt.Sprintf("llama_kv_cache_view after llama_kv_self_update {%s}, model cells {%s}", o.viewDmp, md)})
+		diffs = append(diffs, diff{"view-cells", fmt.Sprintf("llama_kv_cache_view after llama_kv_self_update {%s}, model cells {%s}", short(o.viewDmp), short(md))})
 	}
 	for s := 0; s < nSeqMax; s++ {
 		// llama_kv_self_seq_pos_max starts from 0, not -1
@@ -514,16 +576,21 @@ type succ struct {
 
 // runTrace: reset, replay path (checking that it reaches wantKey if non-empty), apply op.
 func (p *pair) runTrace(path []Op, wantKey string, op Op) succ {
-	o0, err := p.reset()
+	cur, err := p.reset()
 	if err != nil {
 		return succ{replayKO: err.Error()}
 	}
-	cur := o0
-	for _, q := range path {
-		var d []diff
-		cur, d = p.apply(q)
-		if len(d) > 0 {
-			return succ{replayKO: fmt.Sprintf("prefix step %s now differs: %s", q, d[0].Msg)}
+	if len(path) > 0 {
+		// the prefix is itself a trace that was compared after every step when it was first executed; here it
+		// is only re-executed, and must end in exactly the recorded state of the real cache (and of the model)
+		for _, q := range path {
+			if d := p.exec(q, true); len(d) > 0 {
+				return succ{replayKO: fmt.Sprintf("prefix step %s now differs: %s", q, d[0].Msg)}
+			}
+		}
+		cur = p.observe()
+		if md := p.fc.Dump(); cur.dump != md || cur.invalid != "" {
+			return succ{replayKO: fmt.Sprintf("prefix now ends in real {%s} model {%s} %s", cur.dump, md, cur.invalid)}
 		}
 	}
 	if wantKey != "" && cur.key != wantKey {
@@ -543,14 +610,11 @@ type replayCase struct {
 func search(r *evid.Run, modelPath string, cfg Config, workers int) map[string]any {
 	t0 := time.Now()
 	ops := alphabet(cfg.NSeq)
-	pairs := make([]*pair, workers)
-	for i := range pairs {
-		p, err := newPair(modelPath, cfg)
-		if err != nil {
-			r.Violation("C07/conformance/setup/"+cfg.Name, "cannot create the real context: "+err.Error(), nil)
-			return nil
-		}
-		pairs[i] = p
+	// the contexts are re-used by all configurations with the same n_ctx (each costs ~27 MB)
+	pairs, err := pairPool(modelPath, cfg, workers)
+	if err != nil {
+		r.Violation("C07/conformance/setup/"+cfg.Name, "cannot create the real context: "+err.Error(), nil)
+		return nil
 	}
 	init0, err := pairs[0].reset()
 	if err != nil {
@@ -730,6 +794,7 @@ func fixedScenario(modelPath string) (lines []string, agree bool, seq1 []int, er
 	if err != nil {
 		return nil, false, nil, err
 	}
+	defer p.close()
 	if _, err := p.reset(); err != nil {
 		return nil, false, nil, err
 	}
@@ -779,7 +844,7 @@ func fixedScenario(modelPath string) (lines []string, agree bool, seq1 []int, er
 		rm(1, 0, -1),
 		cp(0, 1, 0, 3),
 		rm(1, 3, -1),
-		rm(0, 1, 2),     // ShiftCacheSlot: KvCacheSeqRm(id, numKeep, numKeep+discard)
+		rm(0, 1, 2),      // ShiftCacheSlot: KvCacheSeqRm(id, numKeep, numKeep+discard)
 		add(0, 2, 4, -1), // ShiftCacheSlot: KvCacheSeqAdd(id, numKeep+discard, len(inputs), -discard)
 	}
 	for i, st := range steps {
@@ -815,22 +880,23 @@ func fixedScenario(modelPath string) (lines []string, agree bool, seq1 []int, er
 // ---- main -----------------------------------------------------------------------------------------------
 
 func configs() []Config {
-	// cheapest first: the time budget is global, and what was completed is reported per configuration
+	// empty-cache configurations first (their counterexamples are the smallest); the time budget is global, what was
+	// completed is reported per configuration, so the most expensive one goes last
 	if evid.Thorough() {
 		return []Config{
-			{Name: "nearfull-2seq-kvview", NCtx: 8, NSeq: 2, Depth: 5, Prefill: 32, Holes: []int{3, 10, 20}, UpdateEachStep: true},
-			{Name: "nearfull-2seq", NCtx: 8, NSeq: 2, Depth: 6, Prefill: 32, Holes: []int{3, 10, 20}},
-			{Name: "empty-3seq", NCtx: 8, NSeq: 3, Depth: 5},
 			{Name: "empty-2seq-kvview", NCtx: 8, NSeq: 2, Depth: 6, UpdateEachStep: true},
-			{Name: "nearfull-3seq", NCtx: 8, NSeq: 3, Depth: 5, Prefill: 32, Holes: []int{3, 10, 11, 20}},
-			{Name: "empty-2seq", NCtx: 8, NSeq: 2, Depth: 7},
+			{Name: "empty-3seq", NCtx: 8, NSeq: 3, Depth: 5},
+			{Name: "nearfull-2seq-kvview", NCtx: 8, NSeq: 2, Depth: 5, Prefill: 32, Holes: []int{3, 10, 20}, UpdateEachStep: true},
+			{Name: "nearfull-3seq", NCtx: 8, NSeq: 3, Depth: 4, Prefill: 32, Holes: []int{3, 10, 11, 20}},
+			{Name: "nearfull-2seq", NCtx: 8, NSeq: 2, Depth: 6, Prefill: 32, Holes: []int{3, 10, 20}},
+			{Name: "empty-2seq", NCtx: 8, NSeq: 2, Depth: 7}, // ~3.2 million traces: most of the thorough budget
 		}
 	}
 	return []Config{
-		{Name: "nearfull-2seq-kvview", NCtx: 8, NSeq: 2, Depth: 4, Prefill: 32, Holes: []int{3, 10, 20}, UpdateEachStep: true},
-		{Name: "empty-3seq", NCtx: 8, NSeq: 3, Depth: 4},
 		{Name: "empty-2seq", NCtx: 8, NSeq: 2, Depth: 5},
+		{Name: "empty-3seq", NCtx: 8, NSeq: 3, Depth: 4},
 		{Name: "empty-2seq-kvview", NCtx: 8, NSeq: 2, Depth: 5, UpdateEachStep: true},
+		{Name: "nearfull-2seq-kvview", NCtx: 8, NSeq: 2, Depth: 4, Prefill: 32, Holes: []int{3, 10, 20}, UpdateEachStep: true},
 		{Name: "nearfull-3seq", NCtx: 8, NSeq: 3, Depth: 4, Prefill: 32, Holes: []int{3, 10, 11, 20}},
 		{Name: "nearfull-2seq", NCtx: 8, NSeq: 2, Depth: 5, Prefill: 32, Holes: []int{3, 10, 20}},
 	}
@@ -889,12 +955,15 @@ func main() {
 	}
 
 	workers := min(8, runtime.NumCPU())
+	if evid.Thorough() {
+		workers = min(12, runtime.NumCPU())
+	}
 	if w, err := strconv.Atoi(os.Getenv("LCONF_WORKERS")); err == nil && w > 0 {
 		workers = min(w, 16)
 	}
 	budget := 100 * time.Second
 	if evid.Thorough() {
-		budget = 14 * time.Minute
+		budget = 13*time.Minute + 30*time.Second
 	}
 	r.SetDeadline(budget)
 
@@ -927,6 +996,14 @@ func main() {
 	if !agree {
 		r.Violation("C07/conformance/fixed-scenario/cells", "model and real library disagree in the fixed fork+shift scenario:\n"+strings.Join(lines, "\n"), nil)
 	}
+
+	// create all real contexts now (every configuration uses n_ctx 8) and drop the scratch file at once: the model is
+	// loaded without mmap, and a run that is killed later leaves nothing behind
+	if _, err := pairPool(modelPath, configs()[0], workers); err != nil {
+		r.Violation("C07/conformance/setup/tiny-model", "cannot create the real contexts: "+err.Error(), nil)
+		r.Finish()
+	}
+	os.RemoveAll(scratch)
 
 	var summaries []any
 	for _, cfg := range configs() {
